@@ -12,9 +12,9 @@ pkg=geom; grep -q "^package rtree" mutation_out/demo_test.go && pkg=rtree
 t1=$(go test -vet=off -count=1 ./geom/... ./rtree/... ./carto/... 2>&1 | tail -5 | tr '\n' ' ')
 echo "$t1" | grep -q FAIL && suite=FAIL || suite=pass
 cp mutation_out/demo_test.go $pkg/zz_demo_test.go
-go test -vet=off -count=1 -run 'Demo|demo|C[0-9][0-9]' ./$pkg > /tmp/evalmut_demo1.log 2>&1 && demo_with=pass || demo_with=FAIL
+go test -vet=off -count=1 -run "$(grep -o 'func Test[A-Za-z0-9_]*' mutation_out/demo_test.go | sed 's/func //' | paste -sd'|')" ./$pkg > /tmp/evalmut_demo1.log 2>&1 && demo_with=pass || demo_with=FAIL
 git diff > /tmp/evalmut_cur_$id.diff; git apply -R /tmp/evalmut_cur_$id.diff
-go test -vet=off -count=1 -run 'Demo|demo|C[0-9][0-9]' ./$pkg > /tmp/evalmut_demo2.log 2>&1 && demo_without=pass || demo_without=FAIL
+go test -vet=off -count=1 -run "$(grep -o 'func Test[A-Za-z0-9_]*' mutation_out/demo_test.go | sed 's/func //' | paste -sd'|')" ./$pkg > /tmp/evalmut_demo2.log 2>&1 && demo_without=pass || demo_without=FAIL
 git apply /tmp/evalmut_cur_$id.diff
 rm -f $pkg/zz_demo_test.go
 echo "[$id] suite_with_change=$suite demo_with_change=$demo_with demo_without_change=$demo_without"
